@@ -9,10 +9,11 @@ E1 = "Kani 0.68 / CBMC 6.11 bounded model checking of the compiled crate (genera
 E2 = "symbolic execution of rustc MIR (own executor, regenerated from /repo each run) + z3 SMT queries per (type, operation, unit tuple, path); SAT models replayed natively"
 
 CHECKS = {
-    "C01": dict(engine="mirsmt", technique="MIR symbolic execution + SMT (z3: QF_LRA reals-with-rounding, QF_UF exactness); native replay of models",
-                text="Bounded model checking: for every quantity type with reference unit found in the MIR of both back-ends and every ordered unit pair, "
+    "C01": dict(engine="mirsmt+kani", technique="MIR symbolic execution + SMT (z3: QF_LRA reals-with-rounding, QF_UF exactness); native replay of models",
+                text="Bounded model checking: for every quantity type with reference unit found in the MIR (13 catalogue types + AmountT in f64 and decimal, the 4 astronomical types) and every ordered unit pair, "
                      "the solver shows for ALL amounts in the stated box that convert() carries the requested unit, its amount is within the rounding tolerance "
-                     "of a*sf/st, equiv_amount is the same term, and same-unit conversion returns the input term. Bounded (boxes, catalogue types), hence model_checking not proof.",
+                     "of a*sf/st, equiv_amount is the same term, and same-unit conversion returns the input term (E2); Kani additionally shows the same-unit identity bit-for-bit for EVERY f64 pattern "
+                     "and symbolic units (E1). Bounded (boxes, listed types), hence model_checking not proof.",
                 note="Trusted: rustc MIR dump, the executor and its iterator/Option summaries, the IEEE/fpdec rounding contracts, z3. Outside the bound: NaN/inf/subnormal "
                      "amounts, |decimal| > 1e17, user-defined types (astronomical/synthetic types only in thorough tier).", ref="7 C01"),
     "C02": dict(engine="mirsmt", technique="MIR symbolic execution + SMT (z3: QF_LRA order obligations, QF_UF symmetry/exactness, QF_FP bit-precise re-decision of candidates); native replay",
@@ -21,9 +22,10 @@ CHECKS = {
                      "==, <, >, Equal are independent of operand order for all non-NaN amounts (uninterpreted amount arithmetic with a total order; a SAT answer is re-decided bit-precisely and replayed natively).",
                 note="Trusted: as C01. <, <=, >, >=, != are taken as std's documented derivations from partial_cmp/eq. Symmetry is shown for any amount arithmetic whose ==/< are symmetric/antisymmetric and total on the compared values (true for non-NaN f64 and for decimals).",
                 ref="7 C02"),
-    "C03": dict(engine="mirsmt", technique="MIR symbolic execution + SMT (z3: QF_LRA for +/-, QF_NRA for the ratio, QF_UF exactness); native replay",
-                text="Bounded model checking: for every type with reference unit and ordered unit pair the solver shows for ALL amount pairs in the box that a+b and a-b carry the left unit and are within "
-                     "tolerance of the exact sum/difference of magnitudes, that a/b is within tolerance of the ratio of magnitudes, and that equal units give exactly the amount type's own +, -, /.",
+    "C03": dict(engine="mirsmt+kani", technique="MIR symbolic execution + SMT (z3: QF_LRA for +/-, QF_NRA for the ratio, QF_UF exactness); native replay",
+                text="Bounded model checking: for every type with reference unit (catalogue in both back-ends, astronomical crate) and ordered unit pair the solver shows for ALL amount pairs in the box that a+b and a-b carry the left unit and are within "
+                     "tolerance of the exact sum/difference of magnitudes, that a/b is within tolerance of the ratio of magnitudes, and that equal units give exactly the amount type's own +, -, / (E2); "
+                     "Kani shows the left-unit rule for EVERY f64 bit pattern with symbolic units (E1).",
                 note="Trusted: as C01. Ratio box: 2^-400..2^400 (f64); decimal divisor at least 2e-18(1+|b|) in the dividend's unit.", ref="7 C03"),
     "C04": dict(engine="mirsmt", technique="MIR symbolic execution + SMT (z3: QF_NRA value obligations per path, QF_UF for the borrowed-operand forms); native replay",
                 text="Bounded model checking: for each of the 34 derived operator instances found in the MIR (compared with the declared derivations), every operand unit pair and every path "
@@ -46,10 +48,10 @@ CHECKS = {
                      "new / amount*unit / unit*amount store amount and unit unchanged and k*q, q*k, q/k keep the unit; ONE has an empty symbol and scale one. E2: for every unit of every type in the MIR of both "
                      "back-ends the amount of k*q, q*k, q/k is exactly the amount type's own product/quotient term.",
                 note="Trusted: Kani/CBMC; MIR executor; decimal storage is decided only by E2 (uninterpreted amounts).", ref="7 C08"),
-    "C09": dict(engine="kani", technique="Kani/CBMC bounded model checking over symbolic positions, indices, bounded strings and all f64 scale values",
-                text="Bounded model checking of the registry of the 14 catalogue types (f64 and decimal) and the 4 astronomical types: iteration yields exactly the declared units in the required order "
-                     "(symbolic position), every constant equals its variant, symbol lookups of every declared symbol return the first unit with it, lookups of EVERY UTF-8 string of <= 2 bytes are "
-                     "Some(matching unit) or None-with-no-match (types with <= 8 units in quick, <= 13 in thorough), from_scale/unit_from_scale return the first unit with that scale for EVERY f64, exactly one reference unit with scale one, as_qty is one of itself.",
+    "C09": dict(engine="kani+mirsmt", technique="Kani/CBMC bounded model checking over symbolic positions, indices, bounded strings and all f64 scale values",
+                text="Bounded model checking of the registry of the 14 catalogue types (f64 and decimal), the 4 astronomical types and 6 synthetic macro-defined types (incl. a 24-unit type declared out of order with ties and a no-reference type whose name order differs from identifier order): "
+                     "iteration yields exactly the declared units in the required order (symbolic position), every constant equals its variant, symbol lookups of every declared symbol return the first unit with it, lookups of EVERY UTF-8 string of <= 2 bytes are "
+                     "Some(matching unit) or None-with-no-match (types with <= 8 units in quick, <= 13 in thorough), from_scale/unit_from_scale return the first unit with that scale for EVERY f64 (Kani) and for a symbolic amount in both back-ends (E2), exactly one reference unit with scale one, as_qty is one of itself.",
                 note="Trusted: Kani/CBMC, the unit set of spec/catalogue.py; the order of equal-scale non-reference units is read from /repo's attribute lines. Strings longer than 2 bytes and decimal scale lookup are outside E1's claim.", ref="7 C09"),
     "C10": dict(engine="kani+mirsmt", technique="Kani/CBMC (must-panic harnesses: single failing check at the documented panic site, return unreachable) + MIR symbolic execution with z3 QF_UF",
                 text="Bounded model checking on Temperature, a synthetic 3-unit no-reference type and a synthetic single-unit type, f64 (all bit patterns) and decimal (bounded coefficients): == iff same unit and amount, "
@@ -65,7 +67,7 @@ CHECKS = {
                 text="Bounded model checking. E1: Rate::new / from_qty_vals / reciprocal store and swap the four components bit-identically for every f64 pattern and unit pair of four type combinations. "
                      "E2: for the listed (term, per) type pairs and EVERY unit triple the solver shows for all amounts in the box that rate*q, q*rate carry the term unit and q/rate the per unit with amounts within "
                      "tolerance of ta(v sv)/(pm sp) resp. pm(v sv)/(ta st); rate*q and q*rate, and q/rate and q*rate.reciprocal(), are the same terms.",
-                note="Trusted: as C01. Type pairs: quick 4, thorough 8 (listed in evidence bounds).", ref="7 C13"),
+                note="Trusted: as C01. Type pairs: quick 4 catalogue pairs + 5 pairs with the synthetic single-unit / 4-unit fixture types, thorough 8 + 5 (listed in evidence bounds).", ref="7 C13"),
     "C14": dict(engine="kani+mirsmt", technique="Kani/CBMC over all tables with <= 3 (4) rows with symbolic row units; MIR symbolic execution + z3 (QF_UF affine map, QF_LRA temperature formulas and round trips)",
                 text="Bounded model checking. E1: for every ConversionTable<Temperature,N>, N <= 3 (thorough 4), with all 2N row units, source and target unit symbolic: unchanged for the same unit, else the first entry "
                      "for (from,to), else None. E2: the result amount is exactly fadd(fmul(a,f),o); the predefined temperature table covers all 9 ordered pairs, each within tolerance of the physical formula for all amounts in the box, and round trips return the original.",
